@@ -40,7 +40,8 @@ type RawClient struct {
 
 	// MapPeersV6, when set, encodes the next XOR-PEER-ADDRESS of an IPv4 peer as an IPv4-mapped IPv6
 	// address (family 0x02): the same peer in another notation. Consumed by one request.
-	MapPeersV6 bool
+	MapPeersV6    bool
+	ExtraLifetime *uint32 // added (once) as a LIFETIME attribute to the next CreatePermission/ChannelBind
 	// RefreshFamily, when non-zero, makes the next Refresh carry REQUESTED-ADDRESS-FAMILY (RFC 6156):
 	// 1 = the allocation's own family (an ordinary, valid Refresh), 2 = the other family.
 	RefreshFamily int
